@@ -524,6 +524,30 @@ impl<'a> World<'a> {
         o
     }
 
+    /// Run a client finish step with the arguments of event `e` but these message bytes
+    /// (class concretization sweeps); nothing is interned, no state changes.
+    pub fn try_client_finish(&mut self, e: &Value, msg: &[u8]) -> Res {
+        let pw = self.req_arg(geti(e, "pw"));
+        let ctx = self.arg(geti(e, "ctx"));
+        let idu = self.arg(geti(e, "idu"));
+        let ids = self.arg(geti(e, "ids"));
+        let ksf = Self::ksf_arg(e);
+        let suite = self.suite;
+        let st = self.clis.get(&geti(e, "id")).expect("client login state");
+        match guard(|| suite.clog_finish(st, &pw, msg, ctx.as_deref(), idu.as_deref(), ids.as_deref(), ksf)) {
+            Ok(_) => Res::Ok,
+            Err(r) => r,
+        }
+    }
+    pub fn try_server_finish(&mut self, j: i64, fin: &[u8]) -> Res {
+        let suite = self.suite;
+        let st = self.srvs.get(&j).expect("server login state");
+        match guard(|| suite.slog_finish(st, fin)) {
+            Ok(_) => Res::Ok,
+            Err(r) => r,
+        }
+    }
+
     /// Execute and produce the event as the harness observed it (direction B / recording):
     /// `e` carries the arguments; res / out are filled in.
     pub fn record(&mut self, mut e: Value) -> (Value, Obs) {
